@@ -26,6 +26,7 @@ type world struct {
 	log   vsched.Obj
 	seq   int
 	fails []string
+	z     bool // permessage-deflate was negotiated: RSV1 is legal, the reference decoder inflates
 }
 
 func (w *world) tick() int {
@@ -225,6 +226,10 @@ type wrec struct {
 	data   []byte
 	tick   int
 	thread int
+	// set by attributeWrites (scenarios with negotiated compression): the message this frame
+	// belongs to, decided by position in the frame sequence instead of by content alone
+	owner      *outMsg
+	attributed bool
 }
 
 // fakeConn is an unknown net.Conn type (Upgrade scenario 4). Write is a scheduling point; Read
@@ -349,6 +354,19 @@ type outMsg struct {
 	ret     int   // tick after the last call returned (0: never)
 	err     error // first error returned
 	partial bool  // a multi-call sequence stopped in the middle
+	// body is what the frames of the message carry when it differs from payload: the reference
+	// permessage-deflate form (wsgen.Deflate, compress/flate directly) of a data message on a
+	// connection that negotiated compression. Used to attribute frames to messages only; whether
+	// the wire is right is decided by inflating it (wsgen.Judge).
+	body []byte
+}
+
+// wireBody is the byte string the frames of m carry.
+func (m *outMsg) wireBody() []byte {
+	if m.body != nil {
+		return m.body
+	}
+	return m.payload
 }
 
 func (m *outMsg) event() wsgen.Event {
@@ -378,7 +396,7 @@ func judgeWire(w *world, wire []byte, msgs []*outMsg, mustAll, allowOpen bool, c
 		w.failf("wire-torn-frame|the %d bytes on the wire do not split into whole frames: %v (%s)", len(wire), err, ctx)
 		return res
 	}
-	v := wsgen.Judge(frames, wsgen.Rules{ToServer: false})
+	v := wsgen.Judge(frames, wsgen.Rules{ToServer: false, Compression: w.z})
 	res.v = v
 	if !v.Legal() {
 		switch v.Reason {
@@ -445,6 +463,9 @@ func frameStr(f *wsgen.Frame) string {
 	fin := ""
 	if f.Fin {
 		fin = "+fin"
+	}
+	if f.Rsv1 {
+		fin += "+rsv1"
 	}
 	return fmt.Sprintf("op%d%s:%q", f.Op, fin, short(f.Payload))
 }
